@@ -11,9 +11,11 @@ import Driver.StreamBytes
 import Driver.GoBind
 import Driver.TypedAsm
 import Driver.EnumKey
+import Driver.PathHeap
+import Driver.StoreHelp
 open Ipld.Driver
 
-def handlers : List (List String → Option String) := [cborHandler, asmHandler, linkHandler, jsonHandler, walkHandler, storeHandler, xformHandler, bindHandler, schemaHandler, streamHandler, gobindHandler, tasmHandler, enumKeyHandler]
+def handlers : List (List String → Option String) := [cborHandler, asmHandler, linkHandler, jsonHandler, walkHandler, storeHandler, xformHandler, bindHandler, schemaHandler, streamHandler, gobindHandler, tasmHandler, enumKeyHandler, pathHeapHandler, storeHelpHandler]
 
 def dispatch (line : String) : String :=
   let toks := (line.trimAscii.toString.splitOn " ").filter (· ≠ "")
